@@ -100,6 +100,9 @@ fn split(a: i64) -> (i64, i64, i64, i64, i64, i64) {
   (y, m, d, sod / 3600, sod % 3600 / 60, sod % 60)
 }
 
+/// the lunar-year getters cost a second limit construction per birth: every birth in quick, every third in thorough
+static LUNAR_YEARS_EVERY: std::sync::atomic::AtomicUsize = std::sync::atomic::AtomicUsize::new(1);
+
 fn check_birth(a: i64, man: bool, st: Strat, via_global: bool, log: &mut Log) {
   let t = terms();
   let b = split(a);
@@ -268,7 +271,7 @@ fn check_birth(a: i64, man: bool, st: Strat, via_global: bool, log: &mut Log) {
   }
   // the deprecated lunar-year getters of the limit and of the fortunes run parallel to the sexagenary-year ones:
   // lunar year of the birth (from the enumerated months) + civil years elapsed to the end + steps
-  if via_global && st == Strat::Default && !cal::reform_era_near(a.div_euclid(86400)) {
+  if via_global && st == Strat::Default && !cal::reform_era_near(a.div_euclid(86400)) && (LUNAR_YEARS_EVERY.load(std::sync::atomic::Ordering::Relaxed) <= 1 || a.rem_euclid(LUNAR_YEARS_EVERY.load(std::sync::atomic::Ordering::Relaxed) as i64) == 0) {
     let seq = crate::model::lunar_seq::lunar_seq();
     let n = a.div_euclid(86400);
     let k = seq.months.partition_point(|lm| lm.first <= n);
@@ -398,6 +401,7 @@ pub fn run(cfg: &Cfg) -> (Log, Meta) {
       log.count("related.sequences", 1);
     }
   }
+  LUNAR_YEARS_EVERY.store(cfg.tier.pick(1, 3), std::sync::atomic::Ordering::Relaxed);
   let n_default = cfg.tier.pick(20_000usize, 1_000_000usize);
   let n_other = cfg.tier.pick(4_000usize, 100_000usize);
   // default strategy through the public entry point
@@ -432,7 +436,7 @@ pub fn run(cfg: &Cfg) -> (Log, Meta) {
   log.floor("end.month_or_day_carried", cfg.tier.pick(5_000, 200_000));
   log.floor("strategy.direct_or_switched_calls", cfg.tier.pick(3_000, 80_000));
   log.floor("related.births_in_sequence", cfg.tier.pick(2_000, 40_000));
-  log.floor("fortune.lunar_year_getters", cfg.tier.pick(100_000, 3_000_000));
+  log.floor("fortune.lunar_year_getters", cfg.tier.pick(100_000, 1_500_000));
   let meta = Meta {
     rule: format!(
       "single-threaded sequences of 10 related births (first days of January / December after Daxue / first days of the next January of one civil year in both orders, both sides of the Jie inside one civil month, the same month one year later, both genders) before anything else runs, each judged like every other birth; {} seeded births x both genders through ChildLimit::from_solar_time with the default strategy (1/3 in 1570-1583, 1/12 within 3 s of a Jie instant, 1/12 on month/year ends late in the day, 1/12 on days 28-31): direction from year-stem polarity and gender, eight characters, governing Jie from the term list, counts by the 3 d = 1 y ... 1 s = 2 min rule, end = birth + counts by nominal calendar addition, 0 <= end - birth <= 11 y + 2 d, decade fortune 0 and k (pillar, start/end age, years, index, start fortune), fortune 0 and 3k (pillar, age, year), ages, the seven deprecated lunar-year getters (lunar year of the birth by the enumerated months + civil years to the end + steps); {} births per alternative strategy (China95, LunarSect1, LunarSect2 and Default) called directly and through the guarded global provider switch: counts by the strategy's rule (Sect1: whole days and double-hours), same end-instant and fortune oracles. Ends whose nominal day carry meets October 1582 at a day number > 4 other than 15..21 form the signature class C16/end-1582-10 (listed finding). distinct_nontrivial = distinct (birth, gender, strategy, route).",
